@@ -251,12 +251,27 @@ def sanitize_check(k, L, timeout_s=120):
         lens = [m.eval(LEN[i], model_completion=True).as_long() for i in range(k)]
         names = ["".join(ALPH[m.eval(C[i][j], model_completion=True).as_long()] for j in range(lens[i])) for i in range(k)]
         bn = ba.BooleanNetwork(names)
+        import signal
+
+        class _Stuck(BaseException):
+            pass
+
+        def _alarm(*a):
+            raise _Stuck()
+        old_h = signal.signal(signal.SIGALRM, _alarm)
+        signal.alarm(15)
         try:
             out = sanitize_network_names(bn)
             got = [out.get_variable_name(v) for v in out.variables()]
+        except _Stuck:
+            fails.append(f"names {names}: sanitize_network_names did not terminate within 15 s")
+            got = None
         except Exception as e:
             fails.append(f"names {names}: raised {type(e).__name__}: {e}")
             got = None
+        finally:
+            signal.alarm(0)
+            signal.signal(signal.SIGALRM, old_h)
         if got is not None:
             ok = (len(got) == k and all(re.match("^[a-zA-Z0-9_]+$", g) for g in got) and len(set(got)) == k
                   and all(g == nm for g, nm in zip(got, names) if re.match("^[a-zA-Z0-9_]+$", nm))
